@@ -1,67 +1,119 @@
 ------------------------------- MODULE PotVec -------------------------------
 (* Mode L for C07 (potential functions): one state per scenario
-     lj126 / ljg : (parameter vector on the log-lattice, [min, cut]); all r = P/2, P = 1..PMax
+     lj126 / ljg : (parameter vector on the log-lattice, [min, cut], lattice constant Q); all r = P/Q, P in 1..PMax
+                   Q = 2  the dyadic lattice (every grid value exact in a double)
+                   Q = 10 decimal r and decimal table steps (the code's grid loops accumulate round-off)
+                   Q = 4096 with a 131 073-row table (LJ 12-6 only, sampled rows)
      cbspl       : (NI knot intervals, M sub-lattice points per interval, min, coefficient vector);
                    all r = X dr / M, X = 0..NI M + 2
    TLC checks per scenario (ph = 1) that the symbolically differentiated potential and the
    transcription of the code's closed forms agree when evaluated on the lattice (InvLJ), that the
    matrix form of the B-spline basis is the Cox-de Boor basis and that the parameter derivative of the
-   linear form is the basis function (InvSpl), and prints the expected exact numbers.              *)
+   linear form is the basis function (InvSpl), and prints the expected exact numbers, including
+   the tables SavePotTab has to write (InvTab: every admitted table is the function on its grid)
+   and the parameter files of SaveParam / setParam(file).                                        *)
 EXTENDS PotFn, Json
 
-CONSTANTS C12Set, C6Set, ASet, MSet, J0Set, Ranges, PMax, SplCfgs, LamSeeds, Emit
+CONSTANTS C12Set, C6Set, ASet, MSet, J0Set, Ranges, PMax, SplCfgs, LamSeeds, DecCfgs, BigTab, Emit
 VARIABLES c, ph
 vars == <<c, ph>>
 
 LamOf(s, n) == [k \in 1..n |-> ((k * k * 7 + s * 13 + k * s * 5) % 11) - 3]
+LJ(fn, lam, mn, cut, Q, pmax, big) == [fn |-> fn, lam |-> lam, mn |-> mn, cut |-> cut, Q |-> Q, pmax |-> pmax, big |-> big]
 
 Init == /\ ph = 0
         /\ \/ \E c12 \in C12Set, c6 \in C6Set, rg \in Ranges :
-                c = [fn |-> "lj126", lam |-> <<c12, c6, 0, 0, 0>>, mn |-> rg[1], cut |-> rg[2]]
+                c = LJ("lj126", <<c12, c6, 0, 0, 0>>, rg[1], rg[2], 2, PMax, FALSE)
            \/ \E c12 \in C12Set, c6 \in C6Set, a \in ASet, m \in MSet, j0 \in J0Set, rg \in Ranges :
-                c = [fn |-> "ljg", lam |-> <<c12, c6, a, m, j0>>, mn |-> rg[1], cut |-> rg[2]]
+                c = LJ("ljg", <<c12, c6, a, m, j0>>, rg[1], rg[2], 2, PMax, FALSE)
+           \* decimal lattice: DecCfgs = set of <<fn, lam, mn, cut, pmax>> with r = P/10
+           \/ \E d \in DecCfgs : c = LJ(d[1], d[2], d[3], d[4], 10, d[5], FALSE)
+           \* one very long table: BigTab = set of <<lam, mn, cut>> with r = P/4096
+           \/ \E b \in BigTab : c = LJ("lj126", b[1], b[2], b[3], 4096, 4, TRUE)
            \/ \E sc \in SplCfgs, s \in LamSeeds :
                 c = [fn |-> "cbspl", cfg |-> sc, lam |-> LamOf(s, sc.NI + 3)]
 Next == ph = 0 /\ ph' = 1 /\ UNCHANGED c
 Spec == Init /\ [][Next]_vars
 
 IsLJ == c.fn \in {"lj126", "ljg"}
-Pt(P) == [lam |-> c.lam, P |-> P]
+DPOf == IF c.fn = "lj126" THEN 0 ELSE 4
+Pt(P) == [lam |-> c.lam, P |-> P, Q |-> c.Q, DP |-> DPOf]
 Zone(P) == IF P < c.mn THEN "below" ELSE IF P > c.cut THEN "above" ELSE "in"
 NP == NParam(c.fn)
+\* evaluation points: 1..pmax, and for the long table a few points around both ends
+Points == IF c.big THEN {c.mn - 1, c.mn, c.mn + 1, c.cut - 1, c.cut, c.cut + 1} ELSE 1..c.pmax
+PointSeq == LET RECURSIVE S(_, _)
+                S(lo, hi) == IF lo > hi THEN << >> ELSE (IF lo \in Points THEN <<lo>> ELSE << >>) \o S(lo + 1, hi)
+            IN IF c.big THEN <<c.mn - 1, c.mn, c.mn + 1, c.cut - 1, c.cut, c.cut + 1>> ELSE S(1, c.pmax)
 
 \* ---- LJ / LJG ---------------------------------------------------------------------------
 InvLJ == (ph = 1 /\ IsLJ) =>
-  \A P \in 1..PMax :
+  \A P \in Points :
     /\ OnLattice(Pt(P))
-    /\ Covered(FOf(c.fn))
+    /\ Covered(FOf(c.fn), Pt(P))
     /\ \A i \in 0..(NP - 1) :
          /\ EvalEq(SpecDF(c.fn, i), AlgoDF(c.fn, i), Pt(P))
          /\ \A j \in 0..(NP - 1) :
               /\ EvalEq(SpecD2F(c.fn, i, j), AlgoD2F(c.fn, i, j), Pt(P))
               /\ EvalEq(SpecD2F(c.fn, i, j), SpecD2F(c.fn, j, i), Pt(P))
+\* the end points of the quantified range really occur among the evaluation points (vacuity guard)
+InvEdges == (ph = 1 /\ IsLJ) => (c.mn \in Points /\ c.cut \in Points /\ \E P \in Points : P > c.cut)
 
-\* expected numbers at r = P/2: the formula inside [min, cut] (also exported for r < min, where the
+\* expected numbers at r = P/Q: the formula inside [min, cut] (also exported for r < min, where the
 \* property does not quantify: the check accepts the formula or all-zero there), zero beyond the cut-off
+FAt(P) == IF Zone(P) = "above" THEN << >> ELSE Eval(FOf(c.fn), Pt(P))
 PointLJ(P) ==
   LET z == Zone(P)
       ev(p) == IF z = "above" THEN << >> ELSE Eval(p, Pt(P))
   IN [P |-> P, zone |-> z, F |-> ev(FOf(c.fn)),
       DF |-> [i \in 1..NP |-> ev(SpecDF(c.fn, i - 1))],
       D2F |-> [i \in 1..NP |-> [j \in 1..NP |-> ev(SpecD2F(c.fn, i - 1, j - 1))]]]
-\* SavePotTab(file, step): rows at min, min + step, .., cut
-TabStep == IF (c.cut - c.mn) % 2 = 0 THEN 2 ELSE 1
-TabRows(lo, hi, st) == [n \in 1..((hi - lo) \div st + 1) |->
-                          LET P == lo + (n - 1) * st
-                          IN [P |-> P, zone |-> Zone(P), F |-> IF Zone(P) = "above" THEN << >> ELSE Eval(FOf(c.fn), Pt(P))]]
+
+\* SavePotTab(file, step[, lo, hi]): "the tabulated potential equals the function on the requested grid".
+\* The requested grid runs from lo to hi in steps of st and ends AT hi.  When hi - lo is not a multiple of st the
+\* documentation does not say whether the last regular point lo + k st < hi is part of the grid next to the
+\* end point (the code leaves it out): both tables are admitted (DESIGN 7.1), nothing else is.
+Row(P) == [P |-> P, zone |-> Zone(P), F |-> FAt(P)]
+Regular(lo, hi, st) == {lo + k * st : k \in 0..((hi - lo) \div st)}
+Grids(lo, hi, st) ==
+  IF (hi - lo) % st = 0 THEN {Regular(lo, hi, st)}
+  ELSE {Regular(lo, hi, st) \cup {hi}, (Regular(lo, hi, st) \ {lo + ((hi - lo) \div st) * st}) \cup {hi}}
+SortedRows(S) == LET RECURSIVE R(_)
+                     R(T) == IF T = {} THEN << >>
+                             ELSE LET x == CHOOSE y \in T : \A z \in T : y <= z IN <<Row(x)>> \o R(T \ {x})
+                 IN R(S)
+Tab(call, lo, hi, st) == [call |-> call, step |-> st, lo |-> lo, hi |-> hi,
+                          variants |-> {SortedRows(g) : g \in Grids(lo, hi, st)}]
+\* a step that divides the range, and one that does not
+DivStep(lo, hi) == IF (hi - lo) % 2 = 0 /\ hi - lo >= 2 THEN 2 ELSE 1
+NonDivStep(lo, hi) == IF (hi - lo) % 2 = 1 THEN 2 ELSE IF (hi - lo) % 3 # 0 THEN 3 ELSE IF (hi - lo) % 4 # 0 THEN 4 ELSE 5
+Tabs == IF c.big THEN << >>
+        ELSE << Tab("tab", c.mn, c.cut, DivStep(c.mn, c.cut)),
+                Tab("tab2", 1, c.pmax, 1),
+                Tab("tab2", 1, c.pmax, NonDivStep(1, c.pmax)) >>
+                \o (IF c.cut - c.mn >= 3 THEN << Tab("tab", c.mn, c.cut, NonDivStep(c.mn, c.cut)) >> ELSE << >>)
+\* every admitted table: first row at lo, last row at hi, rows increasing, spacing st except before the end
+InvTab == (ph = 1 /\ IsLJ) =>
+  \A n \in DOMAIN Tabs : LET t == Tabs[n] IN
+    /\ Cardinality(t.variants) = IF (t.hi - t.lo) % t.step = 0 THEN 1 ELSE 2
+    /\ \A v \in t.variants :
+         /\ v[1].P = t.lo /\ v[Len(v)].P = t.hi
+         /\ \A k \in 1..(Len(v) - 1) : v[k].P < v[k + 1].P /\ v[k + 1].P - v[k].P <= 2 * t.step
+         /\ \A k \in 1..(Len(v) - 2) : v[k + 1].P - v[k].P = t.step
+         /\ \A k \in 1..Len(v) : v[k].F = FAt(v[k].P)
+\* the long table: number of rows and every 8192nd row
+BigRows == IF c.big THEN [n |-> c.cut - c.mn + 1, every |-> 8192,
+                          rows |-> [k \in 1..((c.cut - c.mn) \div 8192 + 1) |-> Row(c.mn + (k - 1) * 8192)]]
+           ELSE [n |-> 0, every |-> 1, rows |-> << >>]
 VectorLJ == (Emit /\ ph = 1 /\ IsLJ) =>
-  PrintT(ToJson([fn |-> c.fn, lam |-> c.lam, mn |-> c.mn, cut |-> c.cut,
-                 pts |-> [P \in 1..PMax |-> PointLJ(P)],
-                 tab |-> [step |-> TabStep, rows |-> TabRows(c.mn, c.cut, TabStep)],
-                 tab2 |-> [step |-> 1, lo |-> 1, hi |-> PMax, rows |-> TabRows(1, PMax, 1)]]))
+  PrintT(ToJson([fn |-> c.fn, lam |-> c.lam, mn |-> c.mn, cut |-> c.cut, Q |-> c.Q, big |-> c.big,
+                 pts |-> [n \in DOMAIN PointSeq |-> PointLJ(PointSeq[n])],
+                 tabs |-> Tabs, bigtab |-> BigRows]))
 
 \* ---- CBSPL ------------------------------------------------------------------------------
 XMax == XCut(c.cfg) + 2
+\* setParam(file): the last 4 coefficients are forced to zero
+Reloaded(lam) == [k \in 1..Len(lam) |-> IF k > Len(lam) - 4 THEN 0 ELSE lam[k]]
 InvSpl == (ph = 1 /\ c.fn = "cbspl") =>
   /\ BasisOK(c.cfg)
   /\ NOpt(c.cfg) >= 1
@@ -75,11 +127,16 @@ InvSpl == (ph = 1 /\ c.fn = "cbspl") =>
          ne == Nexcl(c.cfg)
      IN /\ \A k \in (ne + 1)..Len(c.lam) : x[k] = c.lam[k]
         /\ \A k \in 1..ne : x[k] - x[k + 1] >= 0 /\ x[k] - x[k + 1] = x[ne] - x[ne + 1]
+        \* extrapolating twice changes nothing (SaveParam after SavePotTab, second SavePotTab)
+        /\ Extrapolated(c.cfg, x) = x
+        \* with the last four coefficients zero the potential vanishes on the whole last knot interval
+        /\ \A X \in (XCut(c.cfg) - c.cfg.M)..XCut(c.cfg) : SpecF(c.cfg, Reloaded(x), X) = 0
 
 PointSpl(X) ==
   [X |-> X, F |-> SpecF(c.cfg, c.lam, X),
    DF |-> [i \in 1..NOpt(c.cfg) |-> SpecDFSpl(c.cfg, c.lam, i - 1, X)],
-   Fb |-> [i \in 1..NOpt(c.cfg) |-> SpecF(c.cfg, Bump(c.lam, i - 1 + Nexcl(c.cfg)), X)]]
+   Fb |-> [i \in 1..NOpt(c.cfg) |-> SpecF(c.cfg, Bump(c.lam, i - 1 + Nexcl(c.cfg)), X)],
+   Fr |-> SpecF(c.cfg, Reloaded(Extrapolated(c.cfg, c.lam)), X)]
 SplStep == IF (XCut(c.cfg) - c.cfg.xmin) % c.cfg.M = 0 THEN c.cfg.M
            ELSE IF (XCut(c.cfg) - c.cfg.xmin) % 2 = 0 THEN 2 ELSE 1
 VectorSpl == (Emit /\ ph = 1 /\ c.fn = "cbspl") =>
@@ -90,6 +147,10 @@ VectorSpl == (Emit /\ ph = 1 /\ c.fn = "cbspl") =>
                     lam |-> c.lam, nexcl |-> Nexcl(c.cfg), nopt |-> NOpt(c.cfg), den |-> BasisDen(c.cfg),
                     pts |-> [n \in 1..(XMax + 1) |-> PointSpl(n - 1)],
                     ext |-> x,
+                    \* SaveParam: knot positions (in units of dr), extrapolated coefficients, flag 'o' for the
+                    \* excluded knots and the three next to them, 'i' otherwise; setParam(file) of that file
+                    flags |-> [k \in 1..Len(x) |-> IF k - 1 < Nexcl(c.cfg) + 3 THEN "o" ELSE "i"],
+                    reload |-> Reloaded(x),
                     tab |-> [step |-> st,
                              rows |-> [n \in 1..((XCut(c.cfg) - lo) \div st + 1) |->
                                          [X |-> lo + (n - 1) * st, F |-> SpecF(c.cfg, x, lo + (n - 1) * st)]]]]))
